@@ -83,12 +83,12 @@ pub fn runs_for(check: &str, tier: Tier) -> u64 {
         "C01" | "C02" | "C07" => if q { 36_000 } else { 1_500_000 },
         "C15" => if q { 24_000 } else { 1_000_000 },
         "C13" => if q { 12_000 } else { 200_000 },
-        "C06" => if q { 160 } else { 6_000 },
+        "C06" => if q { 160 } else { 2_500 },
         "C08" => if q { 192 + C08_PIPELINES_QUICK } else { 4_000 + C08_PIPELINES_THOROUGH },
         "C03" => if q { 100_000 } else { 5_000_000 },
         "C04" => if q { 80_000 } else { 3_000_000 },
-        "C09" => if q { 8_000 } else { 400_000 },
-        "C05" => if q { 1_000 } else { 60_000 },
+        "C09" => if q { 8_000 } else { 250_000 },
+        "C05" => if q { 1_000 } else { 30_000 },
         "C14" => if q { 100_000 } else { 4_000_000 },
         "C17" => if q { 60_000 } else { 3_000_000 },
         "C18" => if q { 160_000 } else { 4_000_000 },
